@@ -98,6 +98,14 @@ class ConCtx(CtxBase):
                 mod._real_zlib = mod.zlib
             mod.zlib = fake
 
+    def use_crc_model(self, value):
+        import types
+        from .api import lib
+        mod = lib('dwarf.dwarf_util')
+        if not hasattr(mod, '_real_binascii'):
+            mod._real_binascii = mod.binascii
+        mod.binascii = types.SimpleNamespace(crc32=(lambda data, crc=0: value)) if value is not None else mod._real_binascii
+
     def unsigned_div(self, a, b): return a // b
 
 
